@@ -40,7 +40,8 @@ def one(d):
 def main():
     import concurrent.futures as cf
     pat = sys.argv[1] if len(sys.argv) > 1 else ""
-    dirs = [d for d in sorted(glob.glob(os.path.join(ROOT, "seeded", "*"))) if os.path.isdir(d) and pat in os.path.basename(d)]
+    match = (lambda n: n.startswith(pat[1:])) if pat.startswith("^") else (lambda n: pat in n)
+    dirs = [d for d in sorted(glob.glob(os.path.join(ROOT, "seeded", "*"))) if os.path.isdir(d) and match(os.path.basename(d))]
     out = []
     with cf.ThreadPoolExecutor(int(os.environ.get("SEEDREG_JOBS", "3"))) as ex:
         for res in ex.map(one, dirs):
@@ -50,7 +51,12 @@ def main():
     ded = [o[0] for o in out if any(h.startswith(("deductive", "table")) for h in o[3])]
     print(f"{len(out) - len(missed)}/{len(out)} seeds caught; not caught: {[o[0] for o in missed]}")
     print(f"{len(ded)} seeds are caught (also) by a failing deductive / table obligation: {ded}")
-    json.dump([dict(seed=o[0], verdict=o[1], violation_lines=o[2], by=o[3]) for o in out], open(os.path.join(ROOT, "seeded", "REGRESSION.json"), "w"), indent=1)
+    path = os.path.join(ROOT, "seeded", "REGRESSION.json")
+    merged = {e["seed"]: e for e in (json.load(open(path)) if os.path.exists(path) else [])}
+    head = subprocess.run(["git", "-C", "/repo", "log", "-1", "--format=%h"], capture_output=True, text=True).stdout.strip()
+    for o in out:
+        merged[o[0]] = dict(seed=o[0], verdict=o[1], violation_lines=o[2], by=o[3], repo_head=head)
+    json.dump([merged[k] for k in sorted(merged)], open(path, "w"), indent=1)
     return 1 if missed else 0
 
 
